@@ -8,6 +8,7 @@ rcpat  <pat> <emax> <indel>                                      -> err0 | err |
 find|filter|all|best|is <pat> <emax> <indel> <rc> <seq> <circ> <begin> <length>
                                                                  -> err | rcerr | hits | panic
 locate <pat> <seq>                                               -> panic | <from> <to> <score>
+budget <pat> <emax> <indel> <seq>                                -> err | unmodelled | ok <hits>     (MakeApatPattern with its budget guard + FindAllIndex)
 ```
 byte strings in hex; `rc` = 1: the search is done with `pattern.ReverseComplement()`. -/
 namespace ObiVerif.Driver.C10
@@ -29,11 +30,11 @@ def run (line : String) : String :=
     match unhex p, e.toNat?, bool? i with
     | some p, some e, some i =>
       if op = "pat" then
-        match compile p e i with
+        match makeApatPattern p e i with
         | .ok P => showPat P P.cpat
         | .error _ => "err"
       else if op = "rcpat" then
-        match compile p e i with
+        match makeApatPattern p e i with
         | .error _ => "err0"
         | .ok P =>
           match reverseComplement P with
@@ -50,10 +51,17 @@ def run (line : String) : String :=
       | some (a, b, c) => s!"{a} {b} {c}"
       | none => "panic"
     | _, _ => "bad-op"
+  | ["budget", p, e, i, s] =>
+    match unhex p, e.toNat?, bool? i, unhex s with
+    | some p, some e, some i, some s =>
+      match makeApatPattern p e i with
+      | .error _ => "err"
+      | .ok P => if P.patlen ≥ 64 then "unmodelled" else "ok " ++ showHits (findAllIndex P (s.map lowerByte) false 0 (-1))
+    | _, _, _, _ => "bad-op"
   | [op, p, e, i, rc, s, circ, b, l] =>
     match unhex p, e.toNat?, bool? i, bool? rc, unhex s, bool? circ, b.toInt?, l.toInt? with
     | some p, some e, some i, some rc, some s, some circ, some b, some l =>
-      match compile p e i with
+      match makeApatPattern p e i with
       | .error _ => "err"
       | .ok P0 =>
         match (if rc then reverseComplement P0 else .ok P0) with
